@@ -75,6 +75,7 @@ def _find_def(tree, code):
     name = code.co_name
     line = code.co_firstlineno
     best = None
+    lambdas = []
     for n in ast.walk(tree):
         if isinstance(n, (ast.FunctionDef, ast.AsyncFunctionDef)) and n.name == name:
             first = n.decorator_list[0].lineno if n.decorator_list else n.lineno
@@ -83,13 +84,30 @@ def _find_def(tree, code):
             if best is None:
                 best = n
         elif isinstance(n, ast.Lambda) and name == "<lambda>" and n.lineno == line:
-            if best is None:
-                best = n
-            else:
-                # several lambdas on the line: pick by argument names
-                argn = [a.arg for a in n.args.args]
-                if tuple(argn) == code.co_varnames[:code.co_argcount]:
-                    best = n
+            lambdas.append(n)
+    if lambdas:
+        if len(lambdas) == 1:
+            return lambdas[0]
+        # several lambdas on one line: the one whose compiled byte code is that of the function object
+        for n in lambdas:
+            try:
+                c = compile(ast.Expression(body=n), "<lambda-match>", "eval")
+                inner = [k for k in c.co_consts if isinstance(k, types.CodeType)]
+                if inner and inner[0].co_code == code.co_code and inner[0].co_names == code.co_names \
+                        and inner[0].co_varnames == code.co_varnames \
+                        and [k for k in inner[0].co_consts if not isinstance(k, types.CodeType)] == [k for k in code.co_consts if not isinstance(k, types.CodeType)]:
+                    return n
+            except Exception:  # noqa: BLE001
+                pass
+        # same position information as a last resort
+        try:
+            pos = next(iter(code.co_positions()))
+        except Exception:  # noqa: BLE001
+            pos = None
+        for n in lambdas:
+            if pos and n.col_offset <= (pos[2] or 0) <= (n.end_col_offset or 10**9):
+                return n
+        return lambdas[0]
     return best
 
 
